@@ -45,6 +45,40 @@ func jobsFor(prop, tier string) []Job {
 				mk("c10-2x2-recover", params("T", 2, "E", 2, "RECOVER", 1)),
 			)
 		}
+	case "C16":
+		mk := func(name string, p map[string]int) Job {
+			return Job{Name: name, Pkg: "pkg/filter", Fn: "VH_C16", Inits: true, SymIndex: true, Samples: 3, Params: p,
+				Bounds:  map[string]any{"entries": p["N"], "entries_with_symbolic_key_bytes": "SYM (default all)", "user_key_lengths": "(KL + i*STEP) mod 10 for entry i: block path, tail path and the unsafe 4-byte load of murmur3", "key_bytes": "all 256 values", "params": p},
+				Assumes: []string{"math.Ceil/Log/Pow/Round executed natively on concrete arguments (filter sizing)", aS2},
+				Outside: []string{"more than SYM symbolic keys per filter; user keys longer than 9 bytes; Contains on non-members (false positives are allowed by the property)"}}
+		}
+		js = []Job{
+			mk("c16-n1", params("N", 1, "KL", 3)),
+			mk("c16-n2", params("N", 2, "KL", 3, "STEP", 2)),
+			mk("c16-n3-dup", params("N", 3, "KL", 4, "STEP", 3, "DUP", 1)),
+			mk("c16-n4-lens", params("N", 4, "KL", 0, "STEP", 3)),
+			mk("c16-n2-decode", params("N", 2, "KL", 5, "STEP", 4, "DECODE", 1)),
+			mk("c16-n100-sym2", params("N", 100, "KL", 7, "STEP", 1, "SYM", 2)),
+		}
+		if thorough {
+			js = append(js,
+				mk("c16-n8", params("N", 8, "KL", 1, "STEP", 1)),
+				mk("c16-n6-long", params("N", 6, "KL", 4, "STEP", 1)),
+				mk("c16-n5000-sym2", params("N", 5000, "KL", 8, "STEP", 1, "SYM", 2)),
+				mk("c16-n4-decode", params("N", 4, "KL", 2, "STEP", 3, "DECODE", 1, "DUP", 1)),
+			)
+		}
+	case "C17":
+		mk := func(name string, p map[string]int) Job {
+			return Job{Name: name, Pkg: "pkg/skiplist", Fn: "VH_C17", Inits: true, Coins: true, Samples: 6, Params: p,
+				Bounds:  map[string]any{"operations": p["N"], "maxLevel": p["ML"], "op_kinds": "Set (DEL=1: also Delete)", "keys": "1 symbolic user-key byte (all 256 values) @ 1 decimal digit", "values": "1 symbolic byte + tombstone flag", "level_coins": "every coin sequence (forked)", "queries": "symbolic Get / LowerBound / Scan bounds, All", "params": p},
+				Assumes: []string{"math/rand coin = arbitrary outcome of the comparison Float64() < p (any p in (0,1) yields the same set of level sequences)"},
+				Outside: []string{"more operations than N; user keys longer than one byte and multi-digit versions (ordering of those is covered by C10/C09 harnesses through CompareKeys)"}}
+		}
+		js = []Job{mk("c17-n3-ml2", params("N", 3, "ML", 2, "DEL", 1)), mk("c17-n2-ml3", params("N", 2, "ML", 3, "DEL", 1))}
+		if thorough {
+			js = append(js, mk("c17-n4-ml3", params("N", 4, "ML", 3, "DEL", 1)), mk("c17-n5-ml2-setonly", params("N", 5, "ML", 2, "DEL", 0)), mk("c17-n3-ml1", params("N", 3, "ML", 1, "DEL", 1)))
+		}
 	}
 	return js
 }
